@@ -2,6 +2,7 @@ import XV.Model.Pool
 import XV.Lemmas.Pool
 import XV.Lemmas.PoolGraph
 import XV.Lemmas.PoolSwap
+import XV.Lemmas.PoolAdmit
 /-!
 C13 — blocks a node produces from its own pool are valid everywhere and replay to the producer's state; the pool
 order puts every transaction after its producers and before any overwriter of a key version it only read.
@@ -231,39 +232,48 @@ theorem prefix_admissible (s r : St) (lh : Int) (l1 l2 : List Tx) (h : admitAll 
   let ⟨m, hm, _⟩ := admitAll_append lh l1 l2 s r h
   ⟨m, hm⟩
 
-theorem id_inj_of_nodup : ∀ (l : List Tx), (ids l).Nodup → ∀ a ∈ l, ∀ b ∈ l, a.id = b.id → a = b := by
-  intro l
-  induction l with
-  | nil => intro _ a ha; simp at ha
-  | cons c l ih =>
-    intro hnd a ha b hb hab
-    simp only [ids_cons, List.nodup_cons] at hnd
-    rcases List.mem_cons.mp ha with ha | ha <;> rcases List.mem_cons.mp hb with hb | hb
-    · rw [ha, hb]
-    · exfalso; apply hnd.1; rw [← ha, hab]; exact mem_ids hb
-    · exfalso; apply hnd.1; rw [← hb, ← hab]; exact mem_ids ha
-    · exact ih hnd.2 a ha b hb hab
+/-- **the admission order respects every edge**: in a pool admitted one by one (fresh, distinct ids) a transaction is
+admitted after everything it consumes and before any overwriter of a version it only read -/
+theorem admitted_order_respects_edges (s sA : St) (lh : Int) (adm : List Tx)
+    (hids : (ids adm).Nodup) (hfu : FreshU s (ids adm)) (hfv : FreshV s (ids adm))
+    (hadm : admitAll s lh adm = some sA) :
+    ∀ u ∈ adm, ∀ v ∈ adm, edge u v = true → Before (ids adm) u.id v.id :=
+  admitted_respects_edges lh s sA adm hadm hids hfu hfv
 
-theorem nodup_of_ids : ∀ (l : List Tx), (ids l).Nodup → l.Nodup := by
-  intro l
-  induction l with
-  | nil => intro _; exact List.nodup_nil
-  | cons c l ih =>
-    intro hnd
-    simp only [ids_cons, List.nodup_cons] at hnd
-    exact List.nodup_cons.mpr ⟨fun h => hnd.1 (mem_ids h), ih hnd.2⟩
+/-- **an admitted pool has one overwriter per key version** (the second one would cite a stale version): the `writers`
+map of `SortUnconfirmedTx` loses nothing -/
+theorem admitted_pool_unique_writers (s sA : St) (lh : Int) (adm : List Tx)
+    (hids : (ids adm).Nodup) (hfu : FreshU s (ids adm)) (hfv : FreshV s (ids adm))
+    (hadm : admitAll s lh adm = some sA) : UniqueWriters adm :=
+  admitted_unique_writers lh s sA adm hadm hids hfu hfv
 
-/-- **every order the pool can yield is replayable** (model of `GetUnconfirmedTx` end to end): the pool was admitted in
-the order `adm`; `it` is the pool in any map iteration order; if `TopSortDFS` over `SortUnconfirmedTx`'s graph, under
-any iteration order `keyOrder`, returns the transactions `ord`, then a replica admits `ord` one by one from the start
-state and reaches the producer's tables -/
+/-- **the graph of an admitted pool is acyclic, so the pool always yields an order** (`GetUnconfirmedTx` never fails
+with "transaction conflicted" on a consistent pool): for the pool in any map iteration order `it` and any iteration
+order `keyOrder` of the graph, `TopSortDFS` returns an order -/
+theorem admitted_pool_is_sorted (s sA : St) (lh : Int) (adm it : List Tx) (keyOrder : List Nat)
+    (hids : (ids adm).Nodup) (hfu : FreshU s (ids adm)) (hfv : FreshV s (ids adm))
+    (hadm : admitAll s lh adm = some sA) (hit : it.Perm adm)
+    (hko : ∀ x, x ∈ keyOrder ↔ x ∈ (sortUnconfirmed it).allNodes) :
+    ∃ order, (topSortDFS (sortUnconfirmed it) keyOrder).order = some order := by
+  refine acyclic_is_sorted _ keyOrder (graph_nodes it).1 hko ⟨pos (ids adm), ?_⟩
+  intro e he
+  obtain ⟨u, hu, v, hv, hua, hvb, hedge⟩ := graph_edges_sound it e.1 e.2 he
+  have hb := admitted_respects_edges lh s sA adm hadm hids hfu hfv u (hit.mem_iff.mp hu) v (hit.mem_iff.mp hv) hedge
+  rw [hua, hvb] at hb
+  exact pos_lt_of_before (ids adm) e.1 e.2 hids hb
+
+/-- **every order the pool can yield is replayable** (model of `GetUnconfirmedTx` end to end): the pool was admitted one
+by one in the order `adm` (ids distinct and fresh, as hashes are); `it` is the pool in any map iteration order; if
+`TopSortDFS` over `SortUnconfirmedTx`'s graph, under any iteration order `keyOrder`, returns the transactions `ord`,
+then a replica admits `ord` one by one from the start state and reaches the producer's tables -/
 theorem pool_order_replayable (s sA : St) (lh : Int) (adm it ord : List Tx) (keyOrder : List Nat)
-    (hids : (ids adm).Nodup) (hfresh : FreshU s (ids adm)) (hadm : admitAll s lh adm = some sA)
-    (huw : UniqueWriters adm) (hit : it.Perm adm)
+    (hids : (ids adm).Nodup) (hfresh : FreshU s (ids adm)) (hfv : FreshV s (ids adm))
+    (hadm : admitAll s lh adm = some sA) (hit : it.Perm adm)
     (hko : ∀ x, x ∈ keyOrder ↔ x ∈ (sortUnconfirmed it).allNodes)
     (hsort : (topSortDFS (sortUnconfirmed it) keyOrder).order = some (ids ord))
     (hsub : ∀ t ∈ ord, t ∈ adm) :
     ∃ sB, admitAll s lh ord = some sB ∧ Equiv sA sB := by
+  have huw : UniqueWriters adm := admitted_pool_unique_writers s sA lh adm hids hfresh hfv hadm
   obtain ⟨hsrc, hall⟩ := graph_nodes it
   obtain ⟨hnd, hmem, hbef⟩ := order_respects_deps _ keyOrder (ids ord) hsrc hko hsort
   have hitmem : ∀ t, t ∈ it ↔ t ∈ adm := fun t => hit.mem_iff
@@ -288,6 +298,36 @@ theorem pool_order_replayable (s sA : St) (lh : Int) (adm it ord : List Tx) (key
   refine replayable s sA lh adm ord hperm hids hfresh hadm ?_
   intro u hu v hv he
   exact hbef (u.id, v.id) (graph_edges_complete it huw' u v ((hitmem u).mpr hu) ((hitmem v).mpr hv) he)
+
+/-- nothing has to precede an award: a transaction without inputs and key accesses has no incoming edge -/
+theorem no_edge_into_award (u aw : Tx) (hi : aw.ins = []) (hk : aw.kin = []) : edge u aw = false := by
+  unfold edge tokDep keyDep antiDep
+  simp [hi, hk]
+
+/-- **the block layout is replayable** (award first, then the pool in any order that respects the edges): the producer
+applied the pool in admission order and applies the award last (`PlayForMiner`); a replica that applies the award
+first and then the transactions in the block's order reaches the same tables. (Fee outputs — `payFee` — are not part
+of this statement; they are covered by the harness oracle only.) -/
+theorem block_replayable (s sP : St) (lh : Int) (adm ord : List Tx) (aw : Tx)
+    (hi : aw.ins = []) (hk : aw.kin = [])
+    (hperm : adm.Perm ord) (hids : (ids (adm ++ [aw])).Nodup) (hfresh : FreshU s (ids (adm ++ [aw])))
+    (hadm : admitAll s lh (adm ++ [aw]) = some sP)
+    (hord : ∀ u ∈ adm, ∀ v ∈ adm, edge u v = true → Before (ids ord) u.id v.id) :
+    ∃ sR, admitAll s lh (aw :: ord) = some sR ∧ Equiv sP sR := by
+  have hp : (adm ++ [aw]).Perm (aw :: ord) := List.perm_append_comm.trans (hperm.cons aw)
+  refine replayable s sP lh (adm ++ [aw]) (aw :: ord) hp hids hfresh hadm ?_
+  intro u hu v hv he
+  rcases List.mem_append.mp hv with hv1 | hv1
+  · rcases List.mem_append.mp hu with hu1 | hu1
+    · simp only [ids_cons]
+      exact (hord u hu1 v hv1 he).cons aw.id
+    · have hua : u = aw := by simpa using hu1
+      rw [hua]
+      simp only [ids_cons]
+      exact Before.head _ (mem_ids (hperm.mem_iff.mp hv1))
+  · have hva : v = aw := by simpa using hv1
+    rw [hva, no_edge_into_award u aw hi hk] at he
+    simp at he
 
 -- ================================================================ 4. before the repair; non-vacuity
 
@@ -339,6 +379,21 @@ example : FreshU s0 (ids [txR, txW, txX, txY]) := by
   · rename_i h; rw [← h] at hk; simp at hk
   · rfl
 
+example : FreshV s0 (ids [txR, txW, txX, txY]) := by
+  intro K v hv
+  by_cases hK : "k0" = K
+  · subst hK
+    have h1 : curVer s0 "k0" = some (1, 0) := by decide
+    rw [h1] at hv
+    simp only [Option.some.injEq] at hv
+    subst hv
+    decide
+  · have h1 : curVer s0 K = none := by
+      unfold Chain.curVer s0
+      simp [lookup, hK]
+    rw [h1] at hv
+    simp at hv
+
 example : UniqueWriters [txR, txW, txX, txY] := by
   intro t1 h1 t2 h2 vk o1 o2
   have hw : ∀ t ∈ [txR, txW, txX, txY], ∀ vk, overwrites t vk → t = txW := by
@@ -350,6 +405,16 @@ example : UniqueWriters [txR, txW, txX, txY] := by
     · simp [txX] at hk
     · simp [txY, writesKey] at hwk
   rw [hw t1 h1 vk o1, hw t2 h2 vk o2]
+
+-- `swap_independent`: the reader of k0 and the spender of the output are independent
+example : Indep txR txX :=
+  ⟨by decide, by decide, by decide, by intro ki hki; simp [txX] at hki, by decide⟩
+
+-- `block_replayable`: an award (coinbase, no inputs) applied last by the producer and first by the replica
+def txA : Tx := ⟨9, true, [], [⟨"m0", 50, 0⟩], [], []⟩
+example :
+    (admitAll s0 0 ([txR, txW, txX, txY] ++ [txA])).isSome ∧ (admitAll s0 0 (txA :: [txX, txR, txW, txY])).isSome ∧
+    (ids ([txR, txW, txX, txY] ++ [txA])).Nodup ∧ txA.ins = [] ∧ txA.kin = [] := by decide
 
 -- an acyclic and a cyclic raw graph: sorted / refused under every listed iteration order
 example : Acyclic { nodes := [1, 2, 3], edges := [(1, 2), (2, 3), (1, 3)] } :=
